@@ -7,7 +7,7 @@ export CARGO_NET_OFFLINE=true
 mkdir -p work evidence replays
 python3 tools/rs2v.py /repo coq/Gen || true
 (cd coq && coq_makefile -f _CoqProject -o Makefile >/dev/null && timeout 7200 make -j16 >/dev/null)
-(cd extract && coqc -Q ../coq Verif Extract.v >/dev/null && ocamlfind ocamlopt -package zarith -linkpkg -O2 -w -a model.mli model.ml main.ml -o model_cli)
+(ulimit -s unlimited 2>/dev/null; cd extract && coqc -Q ../coq Verif Extract.v >/dev/null && ocamlfind ocamlopt -package zarith -linkpkg -O2 -w -a model.mli model.ml main.ml -o model_cli)
 cp /repo/Cargo.lock harness/Cargo.lock
 cp /repo/rust-toolchain harness/rust-toolchain
 (cd harness && timeout 7200 cargo build --release --offline >/dev/null 2>&1)
